@@ -1,6 +1,8 @@
 """Executors: replay one case (exact rational inputs) into the real code and record what it did.
 An executor never judges; it logs outcome class + projected outputs."""
+import json
 import os
+import re
 import warnings
 
 import numpy as np
@@ -139,13 +141,40 @@ def ex_interval(c):
         ib = IntervalArray(a.copy(), n)
         for i, j, v in c["sets"]:
             ib[i, j] = fl(v)
+        # beyond the listed property: flat integer index, iteration, repr, too many indices, extension through the view
+        L = len(a)
+        fk = sorted({0, L - 1, -1, -L, L // 2})
+        fgets = [[k, fx(ia[k])] for k in fk]
+        ic = IntervalArray(a.copy(), n)
+        fsets = [[k, [1000 + 3 * t, 1]] for t, k in enumerate(fk[:3])]
+        for k, v in fsets:
+            ic[k] = fl(v)
+        it = vec(np.asarray(list(iter(ia)), dtype=float))
+        rp = repr(ia)
+        m = re.fullmatch(r"IntervalArray\((\[.*\]), n=(-?\d+)\)", rp, re.S)
+        rvals, rn = (vec(np.asarray(json.loads(m.group(1)), dtype=float)), int(m.group(2))) if m else ([], -1)
+        idx3 = guarded(lambda: ia[0, 0, 0])[0]
+        set3 = guarded(lambda: ia.__setitem__((0, 0, 0), 1.0))[0]
+        ext_dir = ("both", "left", "right")[L % 3]
+        il, icn = IntervalArray(a.copy(), n), IntervalArray(a.copy(), n)
+        ext_lin = []
+        if L > n:
+            il.extend_linspace(ext_dir)
+            ext_lin = vec(il.array)
+        icn.extend_constant(ext_dir)
+        lst = IntervalArray(a.tolist(), n)               # list input is documented
         return dict(gets=gets, to2d=t2, to2d_closed=t2c, to2d_closed_all=t2ca, nr_full=nr, len=ln,
-                    ov_lin=ovl, ov_pw=ovp, ov_n=ovn, after_sets=vec(ib.array))
+                    ov_lin=ovl, ov_pw=ovp, ov_n=ovn, after_sets=vec(ib.array),
+                    fgets=fgets, fsets=fsets, after_fsets=vec(ic.array), iter=it, repr_vals=rvals, repr_n=rn, idx3=idx3, set3=set3,
+                    ext_dir=ext_dir, ext_lin=ext_lin, ext_const=vec(icn.array), ext_n=int(il.n) if il.n == icn.n else -1,
+                    from_list=vec(np.asarray(lst.array, dtype=float)), from_list_kind=type(lst.array).__name__)
 
     oc, o = guarded(run)
     e = {k: v for k, v in c.items() if k != "get_ij"}
     if oc != "ok":
-        o = dict(gets=[], to2d=[], to2d_closed=[], to2d_closed_all=[], nr_full=-1, len=-1, ov_lin=[], ov_pw=[], ov_n=-1, after_sets=[])
+        o = dict(gets=[], to2d=[], to2d_closed=[], to2d_closed_all=[], nr_full=-1, len=-1, ov_lin=[], ov_pw=[], ov_n=-1, after_sets=[],
+                 fgets=[], fsets=[], after_fsets=[], iter=[], repr_vals=[], repr_n=-1, idx3="", set3="", ext_dir="both", ext_lin=[],
+                 ext_const=[], ext_n=-1, from_list=[], from_list_kind="")
     e.update(o)
     e["outcome"] = oc
     return e
@@ -712,6 +741,8 @@ def wcall(w, op):
         kw = {"target_function_integral_method": op["trule"], "reference_function_integral_method": op["rrule"]}
         kw["alpha"] = op["alpha_f"] if "alpha_f" in op else fl(op["alpha"])
         return w.integral_match(**kw)
+    if k == "interpolate_none":
+        return w.interpolate(method=op["method"])
     if k == "interpolate_n":
         return w.interpolate(n=op["n"], method=op["method"])
     if k == "interpolate_grid":
@@ -898,6 +929,9 @@ def ex_reject_misc(c):
             return sau.integral(np.arange(4.0), np.arange(4.0), method=c["name"])
         if k == "unknown_method":
             return proc.interpolate(np.arange(5.0), np.arange(5.0), np.array([0.5, 1.5]), method=c["name"])
+        if k == "no_sampler":        # beyond the listed properties: FunctionRFA without a sampling-function supplier
+            r = rfa_mod.FunctionRFA(np.arange(c["m"], dtype=float), np.arange(c["m"], dtype=float) ** 2, 3)
+            return r.rfa()
         raise KeyError(k)
     oc, o = guarded(go)
     e = dict(c)
